@@ -5,9 +5,13 @@ from props.common import *
 import re
 # which opcodes can raise: every numeric decode and every pop; their throw sites are obligations of the step queries (exception raised
 # only where prescribed); here: the run-to-completion path handles every one of them
-QUERIES = [L.CONTINUE, L.INSTANCE_STEP] + [q for q in C01.QUERIES if q.tier == 'quick' and re.match(r'step_(unary_8b|addsub_93|within_a5|cltv_b1|pickroll_79_n2)$', q.name)]
+from props import units_main as UM
+STDIN = Query('main_stdin_script', 'harness', UM.unit_stdin, 'h_stdin_script', unwind=204, timeout=2400, extra_cbmc=['--max-field-sensitivity-array-size', '1100'],
+              functions=['btcdeb.cpp: main() - the fragment that reads the script from standard input (fgets, terminator stripping, strdup)'], bounded='input lines of at most 18 characters plus terminator')
+QUERIES = [STDIN, L.CONTINUE, L.INSTANCE_STEP] + [q for q in C01.QUERIES if q.tier == 'quick' and re.match(r'step_(unary_8b|addsub_93|within_a5|cltv_b1|pickroll_79_n2)$', q.name)]
 META = {'level': 'other', 'trusted_base': TRUSTED,
  'assumptions': ASSUME_COMMON + [
+   "also claimed: the stdin script reader fragment of main() (the script is the input line without its LF / CRLF terminator, empty on no input) with fgets / strdup as stubs",
    "claimed clause: 'never terminates abnormally because of a script-level failure' on the path main -> ContinueScript -> StepScript; exit status, stdout format, tty/env mode selection and option independence are whole-process behaviour outside any function contract (not applicable part)",
    "ContinueScript's callee StepScript(InterpreterEnv&) is replaced by a state-independent contract (any result, may raise); the loop is unwound 6 times without unwinding assertion: partial correctness, termination not proved",
  ],
